@@ -200,6 +200,9 @@ class T:
             # element k of a successful prefix / sub-range view of a slice is an element of the slice itself:
             # x.get(..n)?[k] = x[k] (k < n), x.get(a..b)?[k] = x[a + k] (a + k < b), x.first_chunk::<N>()?[k] = x[k]
             v = t.args[0]
+            if v.op == "unsize" and isinstance(v.args[1], int) and elem[1].args[1] < v.args[1]:
+                # element k (k < N) of `&[T; N]` viewed as a slice is element k of the array
+                return T.proj(T.deref(v.args[0]), elem)
             if v.op == "payload" and v.args[1] == "Some" and v.args[0].op == "call":
                 c = v.args[0]
                 kk = elem[1].args[1]
